@@ -43,6 +43,9 @@ func peerBCE(c *an.Check, pats ...string) *an.BCE {
 
 // peerIDDecodeObligations decides the exactness of peer-ID decoding (shared by C01 and C10): it returns the
 // decoder, encoder and callee handles, or ok=false.
+// peerIDIdentityClause: see the identity-only gate below.
+var peerIDIdentityClause = true
+
 func peerIDDecodeObligations(c *an.Check) (dec, enc, ifb, epk, bd *ssa.Function, cEnc an.Callee, ok bool) {
 	p := c.P
 	// role-based anchors for the two unexported helpers
@@ -125,12 +128,15 @@ func peerIDDecodeObligations(c *an.Check) (dec, enc, ifb, epk, bd *ssa.Function,
 	// IDFromBytes: cast only past decode ok, and casts its own argument
 	ifb = p.Func("peer", "", "IDFromBytes")
 	c.Gate(an.GateSpec{Construct: "peer.IDFromBytes success-return", Fn: ifb, Sink: successReturn, Reqs: []an.Req{an.CallOK("multihash decode ok", cDec)}})
-	// "accepts only well-formed identity multihashes": the parser itself must look at the hash code
-	c.Gate(an.GateSpec{Construct: "peer.IDFromBytes success-return (identity only)", Fn: ifb, Sink: successReturn, Reqs: []an.Req{
-		an.FactReq("multihash code == identity", func(s *an.State, x, y ssa.Value, r an.Rel) bool {
-			e, isE := x.(*ssa.Extract)
-			return r == an.EQ && isE && e.Index == 0 && an.ResultCallTo(x, cDec) != nil && an.IsIntConst(y, 0)
-		})}})
+	// "accepts only well-formed identity multihashes": the parser itself must look at the hash code (part of the statements
+	// of C10 and C01 only; properties that merely need ids to be self-delimiting switch this clause off)
+	if peerIDIdentityClause {
+		c.Gate(an.GateSpec{Construct: "peer.IDFromBytes success-return (identity only)", Fn: ifb, Sink: successReturn, Reqs: []an.Req{
+			an.FactReq("multihash code == identity", func(s *an.State, x, y ssa.Value, r an.Rel) bool {
+				e, isE := x.(*ssa.Extract)
+				return r == an.EQ && isE && e.Index == 0 && an.ResultCallTo(x, cDec) != nil && an.IsIntConst(y, 0)
+			})}})
+	}
 	c.EachReturn("PROVENANCE", "peer.IDFromBytes returns its validated argument", ifb, "ID(b)", func(s *an.State, ret *ssa.Return) string {
 		if s.KnownNonNilErr(s.RetVal(ret, -1)) {
 			return ""
